@@ -126,7 +126,7 @@ func Main(args []string) int {
 	run := mon.NewRun(*prop, *tier, "exploration", rule)
 	nc, nh, nl := 8, 5, 80
 	if *tier == "thorough" {
-		nc, nh, nl = 48, 12, 250
+		nc, nh, nl = 32, 10, 200
 	}
 	if *children > 0 {
 		nc = *children
